@@ -412,6 +412,7 @@ def _query(env, qname):
 class Resources:
     def __init__(self):
         gc.collect()
+        gc.collect()
         self.base_fds = _fds()
         self.base_threads = len(_threads())
 
@@ -514,8 +515,6 @@ def _reference(scn):
         for q, ans in zip(_seq(scn, LEARN_LEN), answers):
             if per_q.setdefault(q, ans) != ans:
                 raise _HarnessBug('answers of %s depend on its position' % q)
-        if rs[0] != rs[3] + 1 or rs[1:3] != rs[4:6]:
-            raise _HarnessBug('unexpected request counts %r' % rs)
         _state[key] = {'R': rs, 'logs': logs, 'answers': per_q}
         gc.collect()
         gc.freeze()
@@ -589,18 +588,22 @@ def _exec_plan(env, res, scn, p, ref):
             'obs': '%s>%s' % ('+'.join('%s/%s' % (f[2], f[3]) for f in fired), ','.join(outcomes))}
 
 
-def _warm_up(env, res, scn, ref):
+def _warm_up(env, res, scn, ref, viol):
+    """The three scenario queries, undisturbed; judged like every undisturbed query."""
     inj = _injector()
     for q in SCENARIOS[scn]:
         inj.step_begin()
         out = _query(env, q)
         gc.collect()
-        if out[0] != 'ok' or out[1] != ref['answers'][q]:
-            raise _HarnessBug('warm-up query %s: %r' % (q, out))
-    viol = []
-    res.check(inj, 'after warm-up', viol)
-    if viol:
-        raise _HarnessBug('resources after warm-up: %r' % viol)
+        where = 'after warm-up query %s' % q
+        if out[0] != 'ok':
+            viol.append(('undisturbed-query-failed:' + out[1],
+                         {'where': where, 'exception': out[1], 'raised_in': out[2],
+                          'traceback': out[3]}))
+        elif out[1] != ref['answers'][q]:
+            viol.append(('later-query-differs', {'where': where, 'expected': ref['answers'][q],
+                                                'observed': out[1]}))
+        res.check(inj, where, viol)
 
 
 def _drop_env(holder, res, viol):
@@ -611,13 +614,18 @@ def _drop_env(holder, res, viol):
 
 
 def _solo_plan(scn, cold, p, ref):
+    """p = None: only the warm-up and the drop of the Environment."""
     env, res = _fresh_env()
     holder = [env]
     del env
+    viol = []
     if not cold:
-        _warm_up(holder[0], res, scn, ref)
-    r = _exec_plan(holder[0], res, scn, p, ref)
-    viol = [tuple(v) for v in r['viol']]
+        _warm_up(holder[0], res, scn, ref, viol)
+    if p is not None and not viol:
+        r = _exec_plan(holder[0], res, scn, p, ref)
+        viol += [tuple(v) for v in r['viol']]
+    else:
+        r = {'fired': [], 'outcomes': [], 'steps': 3, 'obs': 'warm-up'}
     _drop_env(holder, res, viol)
     r['viol'] = _dedup(viol)
     return r
@@ -634,6 +642,11 @@ def _run_chain(t):
     results = []
     holder, res = [], None
     plans = t['plans']
+    if not plans:
+        r = _solo_plan(scn, cold, None, ref)
+        r['id'] = 'warm-up:' + scn
+        r['case'] = {'kind': 'chain', 'scn': scn, 'cold': cold, 'plans': []}
+        return {'plans': [r]}
     for j, p in enumerate(plans):
         if cold or len(plans) == 1:
             r = _solo_plan(scn, cold, p, ref)
@@ -643,7 +656,15 @@ def _run_chain(t):
                 env, res = _fresh_env()
                 holder.append(env)
                 del env
-                _warm_up(holder[0], res, scn, ref)
+                viol = []
+                _warm_up(holder[0], res, scn, ref, viol)
+                if viol:
+                    _drop_env(holder, res, viol)
+                    results.append({'id': 'warm-up:' + scn, 'viol': _dedup(viol), 'fired': [],
+                                    'outcomes': [], 'steps': 3, 'obs': 'warm-up',
+                                    'case': {'kind': 'chain', 'scn': scn, 'cold': cold,
+                                             'plans': []}})
+                    break
             r = _exec_plan(holder[0], res, scn, p, ref)
             if r['viol']:
                 viol = [tuple(v) for v in r['viol']]
@@ -803,6 +824,8 @@ class _HistRunner:
             elif sorted(pend) != sorted(mp):
                 viol.append(('deletion-queue', {'where': where, 'queue_len': len(pend),
                                                 'model_len': len(mp)}))
+        elif want is not None and not inj.live_pids():
+            viol.append(('helper-died-on-its-own', {'where': where}))
         sub = None
         for nn in inj.notes:
             viol.append((nn, {'where': where}))
